@@ -14,3 +14,4 @@ pub use api::{Gossip, GossipError, GossipHandle, GossipPublishError, GossipSubsc
 pub use builder::Builder;
 pub use config::{DEFAULT_MAX_MESSAGE_SIZE, GossipConfig, HyParViewConfig, PlumTreeConfig};
 pub use events::GossipEvent;
+#[cfg(p2panda_p2panda_verif)] #[doc(hidden)] pub use actors::ToGossipManager as VerifToGossipManager;
